@@ -166,6 +166,18 @@ func c17Gen(g *hx.Gen) {
 			g.Casef("bl %s %d", b.name, i)
 		}
 	}
+	// explicit definitions: upper-case and mixed-case letters for case-insensitive alphabets,
+	// both cases of one letter, a non-letter, the empty definition
+	for _, def := range []string{"ACGT", "AcGt", "acgt", "aCgT-", "ACGTacgt", "aA", "Zz9", "-", "", "ABCDEFGHIJKLMNOPQRSTUVWXYZ", "@[`{", "AZaz"} {
+		for _, cased := range []string{"0", "1"} {
+			g.Casef("na %s %d %d %s", cased, '-', 'n', hx.Hex([]byte(def)))
+		}
+	}
+	for _, pr := range [][2]string{{"acgt", "tgca"}, {"ACGT", "TGCA"}, {"acgtACGT", "tgcaTGCA"}, {"\x7f\x01", "\x01\x7f"}, {"a", "a"}, {"ab", "bc"}, {"abc", "bca"}, {"a", "b"}, {"\x7f", "\x7f"}} {
+		s0, _ := strconv.Unquote(`"` + pr[0] + `"`)
+		c0, _ := strconv.Unquote(`"` + pr[1] + `"`)
+		g.Casef("np %s %s", hx.Hex([]byte(s0)), hx.Hex([]byte(c0)))
+	}
 	n := g.Scale(1500, 100000)
 	const pool = "acgtnxACGTNX-*mrwsykvhdbMRWSYKVHDBuU"
 	for k := 0; k < n && !g.Done(); k++ {
@@ -413,7 +425,33 @@ func alphabetFacts(repo string) (string, error) {
 	return sb.String(), nil
 }
 
+// c17Shrink proposes shorter byte strings for the hex arguments of av / na / np / nc.
+func c17Shrink(input string) []string {
+	f := hx.Fields(input)
+	var out []string
+	first := map[string]int{"av": 2, "na": 4, "np": 1, "nc": 2}[f[0]]
+	if first == 0 {
+		return nil
+	}
+	for k := first; k < len(f); k++ {
+		b := hx.Unhex(f[k])
+		var cands [][]byte
+		if len(b) > 1 {
+			cands = append(cands, b[:len(b)/2], b[len(b)/2:], b[1:], b[:len(b)-1])
+		}
+		for i := 0; i < len(b) && len(b) > 1 && len(b) <= 24; i++ {
+			cands = append(cands, append(append([]byte{}, b[:i]...), b[i+1:]...))
+		}
+		for _, c := range cands {
+			g := append([]string{}, f...)
+			g[k] = hx.Hex(c)
+			out = append(out, strings.Join(g, " "))
+		}
+	}
+	return out
+}
+
 func init() {
-	hx.Register(&hx.Prop{ID: "C17", Gen: c17Gen, Exec: c17Exec})
+	hx.Register(&hx.Prop{ID: "C17", Gen: c17Gen, Exec: c17Exec, Shrink: c17Shrink})
 	hx.RegisterFacts(hx.FactGen{File: "Alphabets.lean", Gen: alphabetFacts})
 }
